@@ -287,7 +287,7 @@ pub fn run(rep: &mut Report) {
     rep.assume("basis lists are judged for every length 0..wires as the documentation of plug_inputs/plug_outputs promises");
     let quick = rep.quick();
     // unary operations
-    let (s, b, phis): (usize, usize, &[Ph]) = if quick { (2, 2, &PHI4[..]) } else { (2, 3, &PHI6[..]) };
+    let (s, b, phis): (usize, usize, &[Ph]) = if quick { (2, 2, &PHI6[..]) } else { (2, 3, &PHI6[..]) };
     let t0 = Instant::now();
     let structs = structures_upto(s, b, false);
     let stats = sweep(&structs, |st, i, base| {
